@@ -64,6 +64,11 @@ func NewGen(r *Rng, w *World, p *Profile) *Gen {
 			// a wide record: 7..12 short, distinct field names, so that the digests of the shared key list no longer
 			// fit the encoder's 64-byte scratch area (8 digests) in some runs and exactly fill it in others
 			nk := 7 + tr.Intn(6)
+			if wr := r.Sub("very-wide-record"); wr.Chance(0.3) {
+				// ... and in some runs around the counts at which the CBOR heads of the shared key list and of its
+				// digest string change width (24 entries; 32 digests = 256 bytes)
+				nk = []int{23, 24, 25, 31, 32, 33}[wr.Intn(6)]
+			}
 			for j := 0; j < nk; j++ {
 				ks = append(ks, VSpec{S: &[2]int{5000 + t*10 + j, tr.Range(5, 6)}})
 			}
@@ -213,6 +218,9 @@ func (g *Gen) genChild(depth, limit int) VSpec {
 			v := g.genScalar(24)
 			if v.S != nil && v.S[1] > 24 {
 				v.S[1] = g.R.Range(1, 24)
+			}
+			if len(g.templates[t]) > 12 {
+				v = VSpec{U: u64p(uint64(g.R.Intn(20)))} // very wide records stay small enough to be inlined
 			}
 			cs.K = append(cs.K, k)
 			cs.V = append(cs.V, v)
